@@ -102,7 +102,8 @@ Proof. repeat split; try lia; vm_compute; try reflexivity; discriminate. Qed.
 
 Example C14_nonvacuous_same_bytes :
   Forall (in_range 12) (pixelsToIntegers 12 [1; 8]) /\
-  jls_encode 1 1 1 12 [1; 8] = Ok [255; 216; 255; 247; 0; 11; 12; 0; 1; 0; 1; 1; 1; 17; 0; 255; 218; 0; 8; 1; 1; 0; 0; 0; 0; 31; 251; 255; 217].
+  jls_encode 1 1 1 12 [1; 8] =
+  Ok [255; 216; 255; 247; 0; 11; 12; 0; 1; 0; 1; 1; 1; 17; 0; 255; 218; 0; 8; 1; 1; 0; 0; 0; 0; 0; 0; 0; 0; 31; 251; 255; 217].
 Proof.
   split; [apply in_range_forallb; vm_compute; reflexivity | vm_compute; reflexivity].
 Qed.
